@@ -155,6 +155,10 @@ def agree(case, r, o):
         return True
     m, v = Fraction(*r["mean"]), Fraction(*r["var"])
     om, ov = Fraction(*o["mean"]), Fraction(*o["var"])
+    # "exactly for rational outcomes": as soon as an outcome is a Fraction the results are Fractions, not floats
+    rational = case["h"] and (case["typ"] == "Fraction" or any(oc[0][1] != 1 for oc in case["h"]))
+    if rational and not (r["mean_exact"] and r["var_exact"]):
+        return False
     if r["mean_exact"]:
         if m != om:
             return False
